@@ -169,12 +169,17 @@ def run(cx):
                     return ("range", 0, int_of(r[3][0]) - 1)
             if s[0] == "index" and strip_identity(s[1])[0] == "repeat" and s[2].isdigit():
                 return ("elem", int(s[2]))
+            if s[0] == "agg" and s[1] == "array" and s[3]:
+                # `[b0, b1, b2, b3, b4]` rebuilt from consecutive bytes of the buffer (array pattern / struct field)
+                es = [buf_index(x) for x in s[3]]
+                if all(e is not None and e[0] == "elem" for e in es) and [e[1] for e in es] == list(range(es[0][1], es[0][1] + len(es))):
+                    return ("range", es[0][1], es[-1][1])
             return None
 
         def call_sym(c, oo):
             if name_matches(c.fn, "AsyncReadExt::read_exact"):
                 return "read_exact(8)"
-            if name_matches(c.fn, "anemo::types::Version::new") and c.dest == 0:
+            if name_matches(c.fn, "anemo::types::Version::new"):          # (its result is what the function returns: checked on the words below)
                 t = strip_identity(oo.of_operand(c.args[0]))
                 ok = t[0] == "call" and name_matches(t[1], "core::num::from_be_bytes")
                 if ok:
@@ -200,7 +205,7 @@ def run(cx):
                 equal = not equal
             for p, q in ((x, y), (y, x)):
                 bi = buf_index(p)
-                if bi == ("range", 0, 4) and const_of(q) == 'b"anemo"':
+                if bi == ("range", 0, 4) and (const_of(q) == 'b"anemo"' or (strip_identity(q)[0] == "named" and strip_identity(q)[1].endswith("network::wire::ANEMO"))):
                     return f"magic={'ok' if equal else 'bad'}"
                 if bi == ("elem", 7) and int_of(q) == 0:
                     return f"reserved={'ok' if equal else 'bad'}"
@@ -216,16 +221,18 @@ def run(cx):
         # order of the two tests is free; normalise
         norm = set()
         for w in ws:
-            w = [x for x in w]
+            # an error exit is an error exit whether written `return Err(..)` / `bail!` or propagated with `?` from a helper
+            w = ["ret=Err" if x == "!err" else x for x in w]
+            w = [x for i_, x in enumerate(w) if not (x == "ret=Err" and i_ > 0 and w[i_ - 1] == "ret=Err")]
             norm.add(tuple(w))
         allowed = {
-            "read_exact(8) !err <return>",
+            "read_exact(8) ret=Err <return>",
             "read_exact(8) magic=bad ret=Err <return>",
             "read_exact(8) magic=ok reserved=bad ret=Err <return>",
             "read_exact(8) magic=ok reserved=ok ret=Version::new(BE[buf5,buf6]) <return>",
         }
         alt = {
-            "read_exact(8) !err <return>",
+            "read_exact(8) ret=Err <return>",
             "read_exact(8) reserved=bad ret=Err <return>",
             "read_exact(8) reserved=ok magic=bad ret=Err <return>",
             "read_exact(8) reserved=ok magic=ok ret=Version::new(BE[buf5,buf6]) <return>",
